@@ -238,6 +238,8 @@ class Model:
     def getitem(self, v: Any, key: Any, node) -> Any:
         if isinstance(v, Frame):
             return self.ops.frame_getitem(v, key, node)
+        if isinstance(v, tuple) and len(v) == 3 and v[0] == "serdict":
+            return ("at", ("loc", v[2], to_term(key)), v[1])          # s.to_dict()[k] == s.loc[k] (unique labels: one value per label, the last one otherwise)
         if isinstance(v, GroupBy):
             return GroupBy(v.frame, v.keys, v.as_index, key, v.sort)
         if isinstance(v, tuple) and v and v[0] == "indexer":
